@@ -19,9 +19,10 @@ Definition is_nl (c : N) : bool := existsb (N.eqb c) newline_chars.
 Definition is_ws (c : N) : bool := existsb (N.eqb c) whitespace_chars.
 
 (* ====================================================================================== *)
-(* 1. CPython's incremental UTF-8 decoder (codecs.getincrementaldecoder("utf-8")), as used by
-      httpx TextDecoder.  State = the pending (not yet decodable) bytes, as in CPython.  Ill-formed
-      input (where errors="replace" would start substituting U+FFFD) is outside the model: [None]. *)
+(* 1. CPython's incremental UTF-8 decoder, codecs.getincrementaldecoder("utf-8")(errors="replace"), as httpx
+      TextDecoder creates it.  State = the pending (not yet decodable) bytes, exactly what CPython keeps
+      (decoder.getstate()[0]).  Ill-formed input is INSIDE the model: every maximal ill-formed prefix becomes one
+      U+FFFD and decoding resumes at the offending byte (unicodeobject.c / stringlib/codecs.h). *)
 Inductive ucls := UChar (c : N) | UMore | UBad.
 
 Definition in_rng (lo hi b : N) : bool := (lo <=? b) && (b <=? hi).
@@ -53,25 +54,65 @@ Definition classify (p : bytes) : ucls :=
   | _ => UBad
   end.
 
-(* decoder.decode(chunk): returns the new pending bytes and the text produced *)
-Fixpoint u_run (p : bytes) (bs : bytes) : option (bytes * str) :=
+(* strict decoding (errors="strict"): None where CPython raises UnicodeDecodeError.  Only used to say which streams
+   are well-formed (and to prove that the replace decoder agrees with it there). *)
+Fixpoint u_strict (p : bytes) (bs : bytes) : option (bytes * str) :=
   match bs with
   | [] => Some (p, [])
   | b :: r =>
       match classify (p ++ [b]) with
-      | UChar c => match u_run [] r with Some (p', s) => Some (p', c :: s) | None => None end
-      | UMore => u_run (p ++ [b]) r
+      | UChar c => match u_strict [] r with Some (p', s) => Some (p', c :: s) | None => None end
+      | UMore => u_strict (p ++ [b]) r
       | UBad => None
       end
   end.
+Definition utf8_wf (bs : bytes) : bool := match u_strict [] bs with Some _ => true | None => false end.
 
-(* decoder.decode(b"", final=True) with errors="replace": a truncated (so far legal) sequence
-   becomes one U+FFFD *)
-Definition u_flush (p : bytes) : str := match p with [] => [] | _ => [65533] end.
+(* one byte read in the empty state *)
+Definition u_start (b : N) : bytes * str :=
+  match classify [b] with
+  | UChar c => ([], [c])
+  | UMore => ([b], [])
+  | UBad => ([], [65533])                       (* invalid start byte *)
+  end.
 
-(* the whole byte string in one go: bytes.decode as the incremental decoder sees it *)
-Definition utf8_decode (bs : bytes) : option str :=
-  match u_run [] bs with Some (p, s) => Some (s ++ u_flush p) | None => None end.
+(* "\xED" followed by A0..BF (a UTF-8-encoded surrogate) at the end of the data: CPython keeps both bytes pending in
+   non-final mode ("Truncated surrogate code in range D800-DFFF", for the surrogatepass handler) and reports the two
+   errors one byte later; the text produced is the same, only later. *)
+Definition sur_prefix (p : bytes) : bool :=
+  match p with [b0; b1] => (b0 =? 237) && in_rng 160 191 b1 | _ => false end.
+
+(* one byte read with pending bytes [p] *)
+Definition u_step (p : bytes) (b : N) : bytes * str :=
+  match p with
+  | [] => u_start b
+  | _ :: _ =>
+      if sur_prefix p then let '(p', s) := u_start b in (p', 65533 :: 65533 :: s)
+      else match classify (p ++ [b]) with
+           | UChar c => ([], [c])
+           | UMore => (p ++ [b], [])
+           | UBad =>
+               if sur_prefix (p ++ [b]) then (p ++ [b], [])
+               else let '(p', s) := u_start b in (p', 65533 :: s)   (* U+FFFD for [p], resume at b *)
+           end
+  end.
+
+(* decoder.decode(chunk): returns the new pending bytes and the text produced *)
+Fixpoint u_run (p : bytes) (bs : bytes) : bytes * str :=
+  match bs with
+  | [] => (p, [])
+  | b :: r =>
+      let '(p1, s1) := u_step p b in
+      let '(p2, s2) := u_run p1 r in
+      (p2, s1 ++ s2)
+  end.
+
+(* decoder.decode(b"", final=True): a truncated sequence becomes one U+FFFD (two for a pending surrogate prefix) *)
+Definition u_flush (p : bytes) : str :=
+  match p with [] => [] | _ => if sur_prefix p then [65533; 65533] else [65533] end.
+
+(* the whole byte string in one go: bytes.decode("utf-8", "replace") *)
+Definition utf8_decode (bs : bytes) : str := let '(p, s) := u_run [] bs in s ++ u_flush p.
 
 (* ====================================================================================== *)
 (* 2. httpx Response.aiter_bytes (stream not yet read): ByteChunker(None) drops empty chunks,
@@ -82,20 +123,12 @@ Definition iter_bytes (cs : list bytes) : list bytes := filter nonemptyb cs.
 Definition text_chunker (t : str) : list str := match t with [] => [] | _ => [t] end.
 
 (* Response.aiter_text: decode every (non-empty) byte chunk, drop empty text, flush at the end *)
-Fixpoint text_run (p : bytes) (cs : list bytes) : option (list str) :=
+Fixpoint text_run (p : bytes) (cs : list bytes) : list str :=
   match cs with
-  | [] => Some (text_chunker (u_flush p))
-  | c :: r =>
-      match u_run p c with
-      | None => None
-      | Some (p', t) =>
-          match text_run p' r with
-          | None => None
-          | Some ts => Some (text_chunker t ++ ts)
-          end
-      end
+  | [] => text_chunker (u_flush p)
+  | c :: r => let '(p', t) := u_run p c in text_chunker t ++ text_run p' r
   end.
-Definition aiter_text (cs : list bytes) : option (list str) := text_run [] (iter_bytes cs).
+Definition aiter_text (cs : list bytes) : list str := text_run [] (iter_bytes cs).
 
 (* ====================================================================================== *)
 (* 3. str.splitlines: a one-pass scanner over the newline set.  State = (current line, a '\r' was
@@ -175,8 +208,7 @@ Fixpoint ld_fold (st : ldstate) (ts : list str) : ldstate * list str :=
 Definition ld_run (ts : list str) : list str :=
   let '(st, o) := ld_fold ([], false) ts in o ++ ld_flush st.
 
-Definition aiter_lines (cs : list bytes) : option (list str) :=
-  match aiter_text cs with Some ts => Some (ld_run ts) | None => None end.
+Definition aiter_lines (cs : list bytes) : list str := ld_run (aiter_text cs).
 
 (* ====================================================================================== *)
 (* 5. streaming_helpers.py *)
@@ -209,6 +241,33 @@ Definition event_eqb (a b : event) : bool :=
   str_eqb (e_data a) (e_data b) && opt_eqb str_eqb (e_event a) (e_event b)
   && opt_eqb str_eqb (e_id a) (e_id b) && opt_eqb Z.eqb (e_retry a) (e_retry b).
 
+(* ---- int(value) for an ASCII str, base 10 (CPython longobject.c / PyLong_FromString, reached through int(str)):
+   surrounding C white space (\t \n \v \f \r and space; NOT \x1c-\x1f) is skipped, one optional sign, then decimal
+   digits with single underscores allowed between digits; anything else is ValueError.  For a str containing non-ASCII
+   characters CPython first maps Unicode decimal digits / Unicode spaces to ASCII: that table is not modelled, the
+   helpers' model takes int() as a parameter and this function is one validated instance of it on ASCII input. *)
+Definition is_cspace (c : N) : bool := ((9 <=? c) && (c <=? 13)) || (c =? 32).
+Fixpoint lstrip_c (s : str) : str :=
+  match s with [] => [] | c :: r => if is_cspace c then lstrip_c r else s end.
+Definition strip_c (s : str) : str := rev (lstrip_c (rev (lstrip_c s))).
+(* [prev] = the previous character was a digit *)
+Fixpoint int_digits (acc : Z) (prev : bool) (s : str) : option Z :=
+  match s with
+  | [] => if prev then Some acc else None
+  | c :: r =>
+      if is_digit c then int_digits (10 * acc + Z.of_N (c - 48))%Z true r
+      else if (c =? 95) && prev then int_digits acc false r
+      else None
+  end.
+Definition py_int_ascii (s : str) : option Z :=
+  match strip_c s with
+  | [] => None
+  | c :: r =>
+      if c =? 43 then int_digits 0 false r
+      else if c =? 45 then option_map Z.opp (int_digits 0 false r)
+      else int_digits 0 false (c :: r)
+  end.
+
 Section Oracles.
   (* int(value): Some n, or None for ValueError.  json.loads(line): Some j, or None for an exception.
      Both are external (CPython); the theorems hold for every such function, the correspondence run
@@ -239,33 +298,36 @@ Section Oracles.
              end
     end.
 
-  Definition parse_event (lines : list str) : event :=
+  (* None: no field line was recognised (only comments / unknown fields) - nothing to dispatch *)
+  Definition parse_event (lines : list str) : option event :=
     let '(d, e, i, r) := fold_left pe_step lines ([], None, None, None) in
-    {| e_data := join [c_join] d; e_event := e; e_id := i; e_retry := r |}.
+    match d, e, i, r with
+    | [], None, None, None => None
+    | _, _, _, _ => Some {| e_data := join [c_join] d; e_event := e; e_id := i; e_retry := r |}
+    end.
 
-  (* iter_sse over the lines of aiter_lines; [ev] = event_lines.  (`if event:` is always true: SSEEvent
-     defines neither __bool__ nor __len__.) *)
+  Definition olist {A} (o : option A) : list A := match o with Some x => [x] | None => [] end.
+
+  (* iter_sse over the lines of aiter_lines; [ev] = event_lines; `if event:` skips the None of _parse_sse_event *)
   Fixpoint sse_loop (ev : list str) (lines : list str) : list event :=
     match lines with
-    | [] => match ev with [] => [] | _ => [parse_event ev] end
+    | [] => match ev with [] => [] | _ => olist (parse_event ev) end
     | l :: r =>
         match l with
         | [] => match ev with
                 | [] => sse_loop [] r
-                | _ => parse_event ev :: sse_loop [] r
+                | _ => olist (parse_event ev) ++ sse_loop [] r
                 end
         | _ => sse_loop (ev ++ [l]) r
         end
     end.
   Definition sse_of_lines (lines : list str) : list event := sse_loop [] lines.
 
-  Definition iter_sse (cs : list bytes) : option (list event) :=
-    match aiter_lines cs with Some ls => Some (sse_of_lines ls) | None => None end.
+  Definition iter_sse (cs : list bytes) : list event := sse_of_lines (aiter_lines cs).
 
   Definition events_text (evs : list event) : list str :=
     map e_data (filter (fun e => nonemptyb (e_data e)) evs).
-  Definition iter_sse_events_text (cs : list bytes) : option (list str) :=
-    match iter_sse cs with Some evs => Some (events_text evs) | None => None end.
+  Definition iter_sse_events_text (cs : list bytes) : list str := events_text (iter_sse cs).
 
   (* iter_ndjson: items yielded so far, and whether json.loads raised (which ends the iteration) *)
   Fixpoint ndjson_of_lines (ls : list str) : list J * bool :=
@@ -280,8 +342,29 @@ Section Oracles.
                 end
         end
     end.
-  Definition iter_ndjson (cs : list bytes) : option (list J * bool) :=
-    match aiter_lines cs with Some ls => Some (ndjson_of_lines ls) | None => None end.
+  Definition iter_ndjson (cs : list bytes) : list J * bool := ndjson_of_lines (aiter_lines cs).
+
+  (* ---- the generated client (what users run) ----
+     HttpxTransport.request awaits httpx.AsyncClient.request(...), which READS THE WHOLE BODY before returning
+     (Response.aread: b"".join(aiter_bytes())).  The generated endpoint method then hands that response to the helper;
+     on a response that already has _content, aiter_bytes() yields the content as ONE chunk (none when it is empty).
+     So the helpers never see the network's chunk boundaries on this path. *)
+  Definition read_all (cs : list bytes) : list bytes :=
+    match concat (iter_bytes cs) with [] => [] | b => [b] end.
+  (* generated for text/event-stream AND for application/x-ndjson responses:
+       async for chunk in iter_sse_events_text(response): yield json.loads(chunk)
+     items yielded so far, and whether json.loads raised *)
+  Fixpoint loads_all (ts : list str) : list J * bool :=
+    match ts with
+    | [] => ([], false)
+    | t :: r => match json_loads t with
+                | None => ([], true)
+                | Some j => let '(js, e) := loads_all r in (j :: js, e)
+                end
+    end.
+  Definition e2e_events (cs : list bytes) : list J * bool := loads_all (iter_sse_events_text (read_all cs)).
+  (* generated for binary responses: async for chunk in iter_bytes(response): yield chunk *)
+  Definition e2e_bytes (cs : list bytes) : list bytes := iter_bytes (read_all cs).
 End Oracles.
 
 (* ====================================================================================== *)
@@ -357,6 +440,13 @@ Definition guard_dom (bs : list block) : bool :=
 Definition exotic_nl (c : N) : bool := is_nl c && negb ((c =? 10) || (c =? 13)).
 Definition guard_F18a (bs : list block) : bool :=
   forallb (forallb (fun it => forallb (fun c => negb (exotic_nl c)) (item_text it))) bs.
+
+(* "comments ignored": a block that consists of comments only (a keep-alive) carries no event *)
+Definition is_field (it : item) : bool := match it with IComment _ => false | _ => true end.
+Definition has_field (b : block) : bool := existsb is_field b.
+(* what the receiver must see for the whole stream *)
+Definition spec_events (bs : list block) : list event := map expected (filter has_field bs).
+(* (F18c, fixed: a comment-only block yields nothing; no guard conjunct.) *)
 
 (* (F18b, fixed: field values may start with any white space; exactly the one space the sender wrote after the
    colon is removed, so there is no guard conjunct for it any more.) *)
